@@ -1,7 +1,7 @@
 (* Props/C18.v — property theorems only.  Models: Gen/engineering.v is
    regenerated from /repo/src/pycel/lib/engineering.py on every run. *)
 From Coq Require Import ZArith List.
-From PV Require Import Lib.Py Proofs.Radix Proofs.C18.
+From PV Require Import Lib.Py Proofs.Radix Proofs.C18 Proofs.C18Places.
 From PV Require Gen.excelutil Gen.engineering.
 Import ListNotations.
 Open Scope Z_scope.
@@ -97,3 +97,18 @@ Theorem C18_reject_long : forall s b, (b = 2 \/ b = 8 \/ b = 16) -> not_code s -
   engineering.f__base2dec (VStr s) (VInt b) = Ok excelutil.c_NUM_ERROR.
 Proof. exact reject_long. Qed.
 Print Assumptions C18_reject_long.
+
+(* what the closed form [padded] of C18_places_bin / _oct / _hex says, for every
+   base b, half-range m, number n and places p: places smaller than the digit
+   count -> #NUM!; otherwise exactly p characters, the digits of the number
+   (negative: its 10-digit two's complement) preceded by zeros only *)
+Theorem C18_places_too_small : forall b m n p, p < zlen (udigits b (wrap m n)) ->
+  padded b m n p = excelutil.c_NUM_ERROR.
+Proof. exact padded_too_small. Qed.
+Print Assumptions C18_places_too_small.
+Theorem C18_places_pads_zeros : forall b m n p, zlen (udigits b (wrap m n)) <= p ->
+  exists z, padded b m n p = VStr (z ++ udigits b (wrap m n))
+            /\ Forall (fun c => c = 48) z
+            /\ zlen (z ++ udigits b (wrap m n)) = p.
+Proof. exact padded_fits. Qed.
+Print Assumptions C18_places_pads_zeros.
